@@ -84,12 +84,14 @@ Clean(p, v, env) ==
                     [] v[2] \in {"abs_missing", "abs_joined_missing"} -> IF p[2] = "must" THEN Err(<<"PathDoesNotExist">>) ELSE Ok(v)
                     [] v[2] = "rel_exists" ->
                           IF wd = "none" THEN Err(<<"InvalidRelativePath">>)
+                          ELSE IF wd = "empty" THEN Ok(v)          \* working directory "" (the command-line tool run inside the model's folder): the path as given
                           ELSE Ok(<<"str", IF wd = "abs" THEN "abs_joined" ELSE "rel_joined">>)
                     [] v[2] = "empty" -> Unspec                 \* "" joins to the working directory itself
                     [] v[2] = "rel_joined" -> Unspec            \* joined again: idempotence is not promised under a relative working directory
                     [] OTHER ->                                 \* any other text is a relative path that does not exist
                           IF wd = "none" THEN Err(<<"InvalidRelativePath">>)
                           ELSE IF p[2] = "must" THEN Err(<<"PathDoesNotExist">>)
+                          ELSE IF wd = "empty" THEN Ok(v)
                           ELSE Ok(<<"str", IF wd = "abs" THEN "abs_joined_missing" ELSE "rel_joined">>))
       [] p[1] = "Result" ->
             IF v = <<"cmd">> \/ v = <<"str", "resname_ok">> THEN
